@@ -34,10 +34,64 @@ def cases(thorough):
   return _CASES[1]
 
 
+# Programs whose clash (or well-typedness) is visible only at the level of predicate signatures: the two types reach the rule
+# through non-injectible predicates (several facts), through two rules of one predicate, or through sibling scopes.
+SIGNATURE_LEVEL = {
+  'union-lists': (['LN(l: [1, 2]);', 'LN(l: [3]);', 'LS(l: ["a"]);', 'LS(l: ["b"]);', 'T(l) :- LN(l:);', 'T(l) :- LS(l:);'], 'T', 'reject'),
+  'join-lists': (['LN(l: [1, 2]);', 'LN(l: [3]);', 'LS(l: ["a"]);', 'LS(l: ["b"]);', 'T(l) :- LN(l:), LS(l:);'], 'T', 'reject'),
+  'union-scalars': (['N1(1);', 'N1(2);', 'S1("a");', 'S1("b");', 'T(x) :- N1(x);', 'T(x) :- S1(x);'], 'T', 'reject'),
+  'join-scalars': (['N1(1);', 'N1(2);', 'S1("a");', 'S1("b");', 'T(x) :- N1(x), S1(x);'], 'T', 'reject'),
+  'join-records': (['RN(r: {a: 1});', 'RN(r: {a: 2});', 'RS(r: {a: "x"});', 'RS(r: {a: "y"});', 'T(r) :- RN(r:), RS(r:);'], 'T', 'reject'),
+  'union-records': (['RN(r: {a: 1});', 'RN(r: {a: 2});', 'RS(r: {a: "x"});', 'RS(r: {a: "y"});', 'T(r) :- RN(r:);', 'T(r) :- RS(r:);'], 'T', 'reject'),
+  'join-nested-records': (['RN(r: {a: {b: 1}});', 'RN(r: {a: {b: 2}});', 'RS(r: {a: {b: "x"}});', 'RS(r: {a: {b: "y"}});', 'T(r) :- RN(r:), RS(r:);'], 'T', 'reject'),
+  'join-list-of-records': (['RN(r: [{a: 1}]);', 'RN(r: [{a: 2}]);', 'RS(r: [{a: "x"}]);', 'RS(r: [{a: "y"}]);', 'T(r) :- RN(r:), RS(r:);'], 'T', 'reject'),
+  'closed-records-with-different-fields': (['B(1);', 'T(x) :- B(y), x = {a: 2, b: "x"}, x = {a: 1};'], 'T', 'reject'),
+  'closed-records-with-different-fields-2': (['RN(r: {a: 1});', 'RN(r: {a: 2});', 'RS(r: {a: 1, b: 2});', 'RS(r: {a: 3, b: 4});', 'T(r) :- RN(r:), RS(r:);'], 'T', 'reject'),
+  'fact-then-rule': (['T(1);', 'T(x) :- Q(x);', 'Q("a");', 'Q("b");'], 'T', 'reject'),
+  'aggregate-then-compare': (['A(1, "a");', 'A(2, "b");', 'P(x, l? List= y) distinct :- A(x, y);', 'T(x) :- P(x, l:), 1 in l;'], 'T', 'reject'),
+  'sibling-combines-reuse-a-local-name': (['A(1, "a");', 'A(2, "b");', 'B(1);', 'T(x, s, t) :- B(x), s = Sum{y :- A(y, z)}, t = List{y :- A(z, y)};'], 'T', 'accept'),
+  'three-sibling-combines-reuse-a-local-name': (['A(1, "a");', 'A(2, "b");', 'B(1);', 'T(x, s, t, u) :- B(x), s = Sum{y :- A(y, z)}, t = List{y :- A(z, y)}, u = Count{y :- A(y, y2)};'], 'T', 'accept'),
+  'sibling-negations-reuse-a-local-name': (['A(1, "a");', 'A(2, "b");', 'B(1);', 'T(x) :- B(x), ~A(y, "c"), ~A(3, y);'], 'T', 'accept'),
+  'records-same-fields': (['RN(r: {a: 1, b: "p"});', 'RN(r: {a: 2, b: "q"});', 'RS(r: {b: "p", a: 1});', 'RS(r: {b: "z", a: 2});', 'T(r) :- RN(r:), RS(r:);'], 'T', 'accept'),
+  'lists-same-element': (['LN(l: [1, 2]);', 'LN(l: [3]);', 'LM(l: [3]);', 'LM(l: []);', 'T(l) :- LN(l:);', 'T(l) :- LM(l:);'], 'T', 'accept'),
+}
+
+
+def signature_level_orders(stmts):
+  if len(stmts) <= 5: return [list(p) for p in itertools.permutations(stmts)]
+  out = []
+  facts, rules = stmts[:4], stmts[4:]
+  for fp in ([0, 1, 2, 3], [2, 3, 0, 1], [3, 1, 2, 0]):
+    for rp in itertools.permutations(rules):
+      f = [facts[i] for i in fp]
+      out.append(f + list(rp)); out.append(list(rp) + f); out.append(f[:2] + list(rp) + f[2:])
+  return out
+
+
+def work_signature_level(name):
+  impl.accelerate_library_parse()
+  stmts, pred, expect = SIGNATURE_LEVEL[name]
+  stats = dict(signature_level_programs=0, compiles=0, comparisons=0); viol = []; outcomes = set()
+  for order in signature_level_orders(stmts):
+    text = '@Engine("sqlite", type_checking: true);\n' + '\n'.join(order) + '\n'
+    comp = impl.Compiled(text); stats['compiles'] += 1; stats['signature_level_programs'] += 1; stats['comparisons'] += 1
+    o = comp.err or comp.sql(pred)
+    outcomes.add((name, o[0] if o[0] != 'diag' else o[1]))
+    if expect == 'reject' and o[0] == 'script':
+      viol.append(dict(sig='type-clash-accepted/signature-level/%s' % name, what='ill-typed program accepted in this order | %s' % semcheck.oneline(text), case=dict(text=text, kind='sig:' + name)))
+    elif expect == 'accept' and o[0] != 'script':
+      viol.append(dict(sig='well-typed-program-rejected/signature-level/%s' % name, what='well-typed program rejected (%s: %s) | %s' % (o[1], o[2][:100].replace('\n', ' '), semcheck.oneline(text)), case=dict(text=text)))
+    elif o[0] not in ('script', 'diag'):
+      viol.append(dict(sig='internal-error/signature-level/%s/%s' % (name, o[1]), what=o[2][:150], case=dict(text=text)))
+  viol.sort(key=lambda v: len(v['what']))
+  stats['viol_n'] = len(viol)
+  return dict(stats=stats, viol=viol[:2], samples=[dict(signature_level=name, statements=stmts, expected=expect)] if name == 'join-records' else [], keys=dict(outcomes=outcomes))
+
+
 def plan(ctx):
   n = len(cases(ctx.thorough))
   nsh = min(n, 160)
-  return [('typ', ctx.thorough, i, nsh) for i in range(nsh)]
+  return [('typ', ctx.thorough, i, nsh) for i in range(nsh)] + [('sig', name) for name in SIGNATURE_LEVEL]
 
 
 def typed_program(stmts):
@@ -95,12 +149,37 @@ def corruptions(program, typer, thorough=True):
         sig = {}
       for k, (f, e) in enumerate(s.args):
         c = refsem.field_col(f)
-        if sig.get(c) == 'Num':
-          new_args = tuple((ff, (S('q') if kk == k else (N(1) if sig.get(refsem.field_col(ff)) == 'Num' else ee))) for kk, (ff, ee) in enumerate(s.args))
-          if all(x[0] in ('n', 's') for _, x in new_args):
+        if sig.get(c) in ('Num', ('list', 'Num')):
+          def filler(t):
+            if t == 'Num': return N(1)
+            if t == 'Str': return S('z')
+            if t == 'Bool': return ('b', True)
+            if t == ('list', 'Num'): return ('list', (N(1),))
+            return None
+          wrong = S('q') if sig.get(c) == 'Num' else ('list', (S('q'),))
+          new_args = tuple((ff, (wrong if kk == k else filler(sig.get(refsem.field_col(ff))))) for kk, (ff, ee) in enumerate(s.args))
+          if all(x is not None for _, x in new_args):
             fact = Rule(s.pred, new_args)
             out.append(('rules-disagree-on-column-type', stmts[:i + 1] + [fact] + stmts[i + 1:]))
             out.append(('rules-disagree-on-column-type', stmts[:i] + [fact] + stmts[i:]))
+          if sig.get(c) == 'Num' and not any(sig.get(refsem.field_col(ff)) == ('list', 'Num') for ff, _ in s.args[k + 1:]): break
+  # an aggregating predicate: a second distinct rule whose aggregated column has another element type
+  for i, s in enumerate(stmts):
+    if isinstance(s, Rule) and s.distinct and s.is_agg() and s.value is None:
+      try: sig = typer.sig(s.pred)
+      except (typemodel.Unknown, typemodel.TypeClash): continue
+      for k, (f, e) in enumerate(s.args):
+        if e[0] == 'aggr' and e[1] in ('Min', 'Max', 'List', 'Set') and sig.get(refsem.field_col(f)) in ('Num', ('list', 'Num')):
+          def filler(ff, ee):
+            t = sig.get(refsem.field_col(ff))
+            if ee[0] == 'aggr': return ('aggr', ee[1], N(1)) if t in ('Num', ('list', 'Num')) else None
+            return N(1) if t == 'Num' else None
+          new_args = tuple((ff, (('aggr', e[1], S('q')) if kk == k else filler(ff, ee))) for kk, (ff, ee) in enumerate(s.args))
+          if all(x is not None for _, x in new_args):
+            r2 = Rule(s.pred, new_args, distinct=True)
+            out.append(('rules-disagree-on-aggregated-type', stmts[:i + 1] + [r2] + stmts[i + 1:]))
+            out.append(('rules-disagree-on-aggregated-type', stmts[:i] + [r2] + stmts[i:]))
+            # a consumer joining this column with a column of the other element type from a second aggregating predicate
           break
   # a fact of a base table with a string in a numeric column (first and last position)
   out.append(('fact-of-other-type', [R('A', N(1), S('q'))] + stmts))
@@ -109,6 +188,7 @@ def corruptions(program, typer, thorough=True):
 
 
 def work(task):
+  if task[0] == 'sig': return work_signature_level(task[1])
   _, thorough, shard, nsh = task
   impl.accelerate_library_parse()
   ra = impl.M('type_inference.research.reference_algebra')
@@ -198,7 +278,7 @@ def coverage(ctx, merged):
     states=s.get('accepted_variants', 0) + s.get('corrupted', 0), transitions=s.get('compiles', 0), traces_validated_against_impl=s.get('comparisons', 0) + s.get('signatures_checked', 0) + s.get('values_checked', 0),
     samples=merged['samples'], exhaustive=True, evaluations=s.get('compiles', 0), distinct_nontrivial=len(merged['keys'].get('outcomes', ())),
     rule='state = one typed program variant (order permutation) or one single-point type corruption at one insertion position; transition = one type-checked compilation; distinct_nontrivial = distinct (kind, verdict) pairs',
-    base_programs=s.get('base_programs', 0), order_variants=s.get('accepted_variants', 0), corruptions=s.get('corrupted', 0), corruption_kinds={k[5:]: v for k, v in s.items() if k.startswith('kind_')},
+    signature_level_program_orders=s.get('signature_level_programs', 0), base_programs=s.get('base_programs', 0), order_variants=s.get('accepted_variants', 0), corruptions=s.get('corrupted', 0), corruption_kinds={k[5:]: v for k, v in s.items() if k.startswith('kind_')},
     signatures_checked=s.get('signatures_checked', 0), values_checked=s.get('values_checked', 0), skipped_not_ground_typed=s.get('skipped_untyped', 0),
     rejected_by_other_diagnostic=s.get('rejected_by_other_diagnostic', 0), cap_hit=False,
     bounds=dict(base='every 12th (thorough 3rd) program of the C01/C02 families (denser for EXPR/FUNC/INJ) whose every column has a ground type'))
@@ -207,7 +287,7 @@ def coverage(ctx, merged):
 def replay(ctx, case):
   impl.accelerate_library_parse()
   comp = impl.Compiled(case['text'])
-  if case.get('kind'):
+  if case.get('kind') and not str(case['kind']).startswith('sig:') or case.get('kind', '').startswith('sig:'):
     res = comp.err
     if res is None:
       import re
